@@ -50,6 +50,9 @@ macro "toksub" : tactic => `(tactic|
 theorem Rep.congr {ks : List Tok} {A B : TS} (h : Rep ks A) (e : ∀ c i s, A c i s ↔ B c i s) : Rep ks B :=
   fun k => (h k).trans (e _ _ _)
 
+theorem Rep.congrSub {ks : List Tok} {A B : TS} (h : Rep ks A) (h1 : Sub A B) (h2 : Sub B A) : Rep ks B :=
+  fun k => (h k).trans ⟨h1 _ _ _ (clsT_lt k) (shT_lt k), h2 _ _ _ (clsT_lt k) (shT_lt k)⟩
+
 theorem Rep.append {a b : List Tok} {A B : TS} (ha : Rep a A) (hb : Rep b B) :
     Rep (a ++ b) (fun c i s => A c i s ∨ B c i s) := fun k => by
   rw [List.mem_append, ha k, hb k]
